@@ -1,14 +1,14 @@
 CFG = {
-    "modules": ["Parsley.Props.C11"],
+    "modules": ["Parsley.Props.C11", "Parsley.Props.C11Spec"],
     "theorems": [
         "Parsley.C11.resolve_fuel_sufficient", "Parsley.C11.dom_terminates", "Parsley.C11.dom_never_panics",
+        "Parsley.C11.resolveChain_eq_deref",
+        "Parsley.C11.dom_matches_spec", "Parsley.C11.dom_error_or_complete",
+        "Parsley.C11.dom_records_reachable_once", "Parsley.C11.dom_resources_nearest",
+        "Parsley.C11.dom_contents_in_order", "Parsley.C11.dom_page_resources_on_path",
+        "Parsley.C11.spec_dom_facts", "Parsley.C11.spec_nearest_on_path", "Parsley.C11.spec_recs_nodup", "Parsley.C11.sortedKeys_dictInsert",
     ],
-    "partial": {
-        "dom_records_reachable_once (NOT PROVED)": "keys of dom.pages = BFS-discovered set of the spec, each once; decided per run by the oracle (Spec/PageTree.discover) on every case, not by a theorem",
-        "dom_resources_nearest (NOT PROVED)": "page resources = nearest declaring node on the discovery path; oracle-checked only",
-        "dom_contents_in_order (NOT PROVED)": "contents = dereferenced /Contents in document order; needs resolveChain = hop-bounded deref (pigeonhole); oracle-checked only",
-        "dom_error_or_complete (NOT PROVED)": "error iff some discovered object is defective; oracle-checked only",
-    },
+    "partial": {},
     "n": {"quick": 2500, "thorough": 60000},
     "exhaustive": {"quick": False, "thorough": True},
     "shrink": False,
@@ -26,7 +26,16 @@ CFG = {
         "harness: PDF text printer of the case graph + the real parse_pdf_indirect_obj build the PDFObjContext; private "
         "fields parent/count/root kids are read off the derived Debug text",
     ],
-    "assumptions": ["object graphs are those the real object parser produces from the printed document (dictionary keys unique and sorted)"],
+    "assumptions": [
+        "hypothesis DefsWF of the section-G theorems of Props/C11Spec (dom_matches_spec, dom_error_or_complete, "
+        "dom_records_reachable_once, dom_resources_nearest, dom_contents_in_order): every dictionary inside a defined object "
+        "has strictly increasing keys, i.e. the association list that models a Rust BTreeMap really is a map (the converters "
+        "iterate the resource and /Font dictionaries; for a list with a repeated /Font key the statements are false, and no "
+        "BTreeMap corresponds to such a list). sortedKeys_dictInsert proves that the model's BTreeMap::insert keeps the "
+        "invariant; the judge rejects (class notmap) any case outside it. resolveChain_eq_deref, dom_terminates, "
+        "dom_never_panics and the spec-only theorems have no hypothesis.",
+        "object graphs of the correspondence run are those the real object parser produces from the printed document",
+    ],
 }
 LEVEL = {
     "design_ref": "DESIGN.md 3.C11",
@@ -34,8 +43,16 @@ LEVEL = {
                  "+ differential correspondence with the real to_page_dom on generated page trees, judged by a declarative BFS spec",
     "text": "Machine-checked for ALL object graphs and catalogs: the model of the fixed to_page_dom never panics "
             "(q.next().unwrap() unreachable), resolve_chain follows at most |defs| links and the work loop runs at most |defs|+1 "
-            "times (fuel-independence beyond |defs|+1, via the measure queue length + definitions not yet examined), so DOM "
-            "construction terminates on cyclic/shared /Kids and looping reference chains. Exactly-once recording, nearest-ancestor "
-            "resources and content order are NOT proved; they are decided on every run by an independent declarative BFS spec "
-            "(oracle) against the real to_page_dom, with an impl-vs-model correspondence on full DOM observables.",
+            "times, and the iterative followed-set resolve_chain equals the spec's hop-bounded dereference (pigeonhole on |defs|; "
+            "same value, same provenance, None for undefined targets and loops). For ALL object graphs whose dictionaries are maps "
+            "(keys strictly increasing = BTreeMap) and ALL catalogs: to_page_dom reports an error exactly when the declarative "
+            "spec (Spec/PageTree.specDom: level-by-level BFS over defined kids, first discovery wins, scopes passed down) expects "
+            "one, and otherwise dom.pages has exactly one entry per spec record under the record's identifier (keys are a "
+            "duplicate-free permutation of the discovered identifiers), each entry carrying the record's parent, count, kids, font "
+            "resource names and content-stream identities in document order. About the spec alone (no hypothesis): identifiers are "
+            "discovered once, the discovered set contains every defined kid of the root and of every recorded node, and every "
+            "record is built from the definition of its identifier with its own resources first, else the effective resources "
+            "of the earlier record that lists it as a kid, else the root's (nearest declaring node on the discovery path). "
+            "Every run additionally decides the same spec against the real to_page_dom (oracle) and diffs full DOM observables "
+            "between implementation and model.",
 }
